@@ -283,7 +283,7 @@ func init() {
 		Title: "Text reader primitives match a byte-level specification and stay in bounds",
 		Plan: func(tier string, seed int64) []run.Job {
 			var jobs []run.Job
-			n, per := 32, 700
+			n, per := 32, 3000
 			if tier == "thorough" {
 				n, per = 128, 4000
 			}
